@@ -303,7 +303,7 @@ def _encode_node(node, properties, lnk):
 def _encode_sortinfo(node, properties):
     sortinfo = []
     # rather than node.sortinfo, construct manually so cvarsort appears first
-    if node.type is not None and node.type != 'u':
+    if node.type is not None:
         sortinfo.append(node.type)
     if properties and node.properties:
         sortinfo.extend('{}={}'.format(k, v)
